@@ -487,10 +487,6 @@ func checkAccumulator(c *Ctx, R string, fn *ssa.Function, accs []*ssa.Phi) [][2]
 			toggle = p
 		}
 	}
-	if toggle == nil {
-		c.Undecided(R, name+"/toggle", acc.Pos(), "no boolean toggle phi next to the accumulator")
-		return nil
-	}
 	// digit value: call to utils.RuneToInt inside the loop
 	var digit ssa.Value
 	eachInstr(fn, func(b *ssa.BasicBlock, ins ssa.Instruction) {
@@ -549,6 +545,10 @@ func checkAccumulator(c *Ctx, R string, fn *ssa.Function, accs []*ssa.Phi) [][2]
 		if k, ok := constInt(a.Edges[entryIdx]); !ok || k != 0 {
 			c.Check(R, name+"/sum-init", a.Pos(), false, "sum starts at 0", a.Edges[entryIdx].String())
 		}
+	}
+	if toggle == nil {
+		// no boolean toggle: a two-valued weight (or state) variable that alternates
+		return checkWeightToggle(c, R, fn, name, accs, header, digit, entryIdx, backIdx)
 	}
 	// flip
 	flip := false
@@ -640,6 +640,168 @@ func checkAccumulator(c *Ctx, R string, fn *ssa.Function, accs []*ssa.Phi) [][2]
 		wN += o[1]
 	}
 	c.Check(R, name+"/increment", acc.Pos(), seenT && seenNT && wT > 0 && wN > 0, "the digit is added on both toggle polarities", fmt.Sprintf("multiples of the digit per accumulator (toggle set, clear): %v", out))
+	return out
+}
+
+// checkWeightToggle: the alternation is carried by an integer loop variable with two states (for
+// example the weight itself, 3 / 1). The states are taken from the variable's start value, the
+// back-edge value must map each state to the other one, the start state must be a function of the
+// input length that selects the same state for all odd lengths (that state plays the role of "toggle
+// set") and the other one for all even lengths; the increments are read per state.
+func checkWeightToggle(c *Ctx, R string, fn *ssa.Function, name string, accs []*ssa.Phi, header *ssa.BasicBlock, digit ssa.Value, entryIdx, backIdx int) [][2]int64 {
+	acc := accs[0]
+	isAcc := map[*ssa.Phi]bool{}
+	for _, a := range accs {
+		isAcc[a] = true
+	}
+	n := NewNormer(c.P)
+	n.Root = fn
+	if len(fn.Params) > 0 {
+		n.Bind[fn.Params[0]] = "code"
+	}
+	var tog *ssa.Phi
+	var initCases []valCase
+	var st [2]int64
+	for _, ins := range header.Instrs {
+		p, ok := ins.(*ssa.Phi)
+		if !ok {
+			break
+		}
+		if isAcc[p] || !isIntType(p.Type()) {
+			continue
+		}
+		cases := n.valueCases(fn, nil, p.Edges[entryIdx], 0)
+		vals := map[int64]bool{}
+		allConst := len(cases) > 0
+		for _, cs := range cases {
+			k, ok := cs.val.IsConst()
+			if !ok {
+				allConst = false
+				break
+			}
+			vals[k] = true
+		}
+		if !allConst || len(vals) != 2 {
+			continue
+		}
+		var ks []int64
+		for k := range vals {
+			ks = append(ks, k)
+		}
+		sort.Slice(ks, func(i, j int) bool { return ks[i] < ks[j] })
+		next := func(v int64) (int64, bool) {
+			n.env = append(n.env, map[ssa.Value]Poly{p: pConst(v)})
+			defer func() { n.env = n.env[:len(n.env)-1] }()
+			cs := n.valueCases(fn, header.Succs[0], p.Edges[backIdx], 0)
+			if len(cs) != 1 {
+				return 0, false
+			}
+			return cs[0].val.IsConst()
+		}
+		a, okA := next(ks[0])
+		b, okB := next(ks[1])
+		if okA && okB && a == ks[1] && b == ks[0] {
+			tog, initCases, st = p, cases, [2]int64{ks[0], ks[1]}
+		}
+	}
+	if tog == nil {
+		c.Undecided(R, name+"/toggle", acc.Pos(), "no boolean toggle and no alternating two-state variable next to the accumulator")
+		return nil
+	}
+	c.Check(R, name+"/toggle-flips", tog.Pos(), true, "the state variable alternates between its two values on the back edge", fmt.Sprintf("%d <-> %d", st[0], st[1]))
+	// start state per input length
+	domain := []int64{1, 2, 3, 4, 5, 6, 7, 8, 9, 10, 11, 12, 13, 14}
+	if shortName(fn.Pkg.Pkg.Path()) == "ean" {
+		domain = []int64{7, 12} // N3-LEN establishes that only these lengths arrive
+	}
+	stateAt := func(L int64) (int64, bool) {
+		cl := MustRefCond(fmt.Sprintf("len(code) == %d", L))
+		var got []int64
+		for _, cs := range initCases {
+			if imp, _, _ := CondRelation(cl, cs.cond); imp {
+				k, _ := cs.val.IsConst()
+				got = append(got, k)
+			}
+		}
+		if len(got) != 1 {
+			return 0, false
+		}
+		return got[0], true
+	}
+	var X, Y int64
+	haveX := false
+	okInit, bad := true, ""
+	for _, L := range domain {
+		s, ok := stateAt(L)
+		if !ok {
+			okInit = false
+			bad += fmt.Sprintf(" len=%d->?", L)
+			continue
+		}
+		if L%2 == 1 && !haveX {
+			X, haveX = s, true
+			Y = st[0] + st[1] - s
+		}
+	}
+	if !haveX {
+		c.Undecided(R, name+"/toggle-init", tog.Pos(), "start state is not decided by len(input)")
+		return nil
+	}
+	for _, L := range domain {
+		s, ok := stateAt(L)
+		want := Y
+		if L%2 == 1 {
+			want = X
+		}
+		if ok && s != want {
+			okInit = false
+			bad += fmt.Sprintf(" len=%d->%d", L, s)
+		}
+	}
+	c.Check(R, name+"/toggle-init", tog.Pos(), okInit, fmt.Sprintf("one start state for odd and the other for even lengths %v (weight 3 lands on the right-most digit)", domain), fmt.Sprintf("odd:%d even:%d%s", X, Y, bad))
+	body := header.Succs[0]
+	out := make([][2]int64, len(accs))
+	okInc := true
+	for ai, a := range accs {
+		for si, sv := range []int64{X, Y} {
+			m := NewNormer(c.P)
+			m.Root = fn
+			m.Bind[a] = "s"
+			m.Bind[digit] = "d"
+			m.env = append(m.env, map[ssa.Value]Poly{tog: pConst(sv)})
+			seen := false
+			for _, cs := range m.valueCases(fn, body, a.Edges[backIdx], 0) {
+				if eq, _ := CondEquivalent(cs.cond, cFalse); eq {
+					continue
+				}
+				inc := pAdd(cs.val, pAtom("s"), -1)
+				var k int64
+				switch {
+				case len(inc) == 0:
+					k = 0
+				case len(inc) == 1 && inc["d"] != 0:
+					k = inc["d"]
+				default:
+					c.Check(R, fmt.Sprintf("%s/increment#%d", name, ai+1), a.Pos(), false, "the sum grows by a multiple of the digit", "s' - s = "+inc.String()+" when "+cs.cond.String())
+					return nil
+				}
+				if seen && out[ai][si] != k {
+					c.Check(R, fmt.Sprintf("%s/increment#%d", name, ai+1), a.Pos(), false, "one multiple of the digit per state", fmt.Sprintf("%d and %d in state %d", out[ai][si], k, sv))
+					return nil
+				}
+				out[ai][si], seen = k, true
+			}
+			if !seen {
+				okInc = false
+			}
+		}
+	}
+	var wT, wN int64
+	for _, o := range out {
+		wT += o[0]
+		wN += o[1]
+	}
+	c.Check(R, name+"/increment", acc.Pos(), okInc && wT > 0 && wN > 0, "the digit is added in both states", fmt.Sprintf("multiples of the digit per accumulator (odd-length start state, other state): %v", out))
 	return out
 }
 
